@@ -401,8 +401,9 @@ def run_check(pid: str, tier: str, seed: int, jobs: int = 16) -> int:
         "wall_s": round(wall_s, 2),
         "violations": reported,
     }
-    os.makedirs(os.path.join(VERIF, "evidence"), exist_ok=True)
-    with open(os.path.join(VERIF, "evidence", f"{pid}.json"), "w") as fh:
+    evdir = os.environ.get("PYXSIM_EVIDENCE_DIR") or os.path.join(VERIF, "evidence")  # override: triage runs of seeded changes
+    os.makedirs(evdir, exist_ok=True)
+    with open(os.path.join(evdir, f"{pid}.json"), "w") as fh:
         json.dump(ev, fh, indent=1, sort_keys=True, default=_default)
     print(
         f"{pid} tier={tier} seed={seed} evaluations={evaluations} distinct_nontrivial={len(keys)} "
